@@ -109,5 +109,5 @@ def cases(draw, prof, maxlen):
 PROFILE = specgen.profile(partial=True, faults=True, lazy_root=False, domain_rate=0.02)
 PARTS = [
     Part("fault-histories", check, strategy=lambda ctx: cases(PROFILE, 7 if ctx.tier == "quick" else 14),
-         budget={"quick": 120, "thorough": 1500}),
+         budget={"quick": 400, "thorough": 1500}),
 ]
